@@ -9,8 +9,10 @@ var Float32Fn func() float32 = defaultStream
 var state uint64 = 0x9E3779B97F4A7C15
 
 // Reset restarts the default stream (called by the harness at the start of every execution).
+//go:norace
 func Reset() { state = 0x9E3779B97F4A7C15 }
 
+//go:norace
 func defaultStream() float32 {
 	// xorshift64*
 	state ^= state >> 12
@@ -19,4 +21,5 @@ func defaultStream() float32 {
 	return float32((state*0x2545F4914F6CDD1D)>>40) / float32(1<<24)
 }
 
+//go:norace
 func Float32() float32 { return Float32Fn() }
